@@ -62,6 +62,212 @@ def _fresh_instance_var(f):
     return None, None
 
 
+def single_pass_view(body):
+    """A view of a function body in which work that is spread over several passes over the same per-term sequence is brought
+    into the producing loop (only used by the slice models; the interleaving of *independent* per-element work does not
+    matter to them):
+      X.update({k: v for T in IT})              ->  for T in IT: X[k] = v
+      L = [E for T in IT]  (consumed later)     ->  L = []; for T in IT: L.append(E)
+      for TB in L: BODY   (L filled by one unconditional L.append(E) in an earlier top-level loop A)
+                                                ->  appended to A's body as  TB = E; BODY
+      [ELT for TB in L]                         ->  a new list filled in A by  TB = E; <new>.append(ELT)
+    Returns a new list of statements (deep copy); the input is not modified."""
+    import copy
+
+    body = [copy.deepcopy(s) for s in body]
+
+    def loc(new, old):
+        for n in ast.walk(new):
+            if not hasattr(n, "lineno"):
+                n.lineno, n.col_offset = getattr(old, "lineno", 1), getattr(old, "col_offset", 0)
+                n.end_lineno, n.end_col_offset = getattr(old, "end_lineno", n.lineno), getattr(old, "end_col_offset", 0)
+        return new
+
+    def names_stored(stmts):
+        return {n.id for s_ in stmts for n in ast.walk(s_) if isinstance(n, ast.Name) and isinstance(n.ctx, ast.Store)}
+
+    def names_loaded(stmts):
+        return {n.id for s_ in stmts for n in ast.walk(s_) if isinstance(n, ast.Name) and isinstance(n.ctx, ast.Load)}
+
+    def store_ctx(t):
+        t = copy.deepcopy(t)
+        for n in ast.walk(t):
+            if isinstance(n, (ast.Name, ast.Tuple, ast.List, ast.Starred)):
+                n.ctx = ast.Store()
+        return t
+
+    # 1. X.update(<dict comprehension / generator of pairs>)
+    out = []
+    for s_ in body:
+        v = s_.value if isinstance(s_, ast.Expr) else None
+        if isinstance(v, ast.Call) and isinstance(v.func, ast.Attribute) and v.func.attr == "update" and len(v.args) == 1 and not v.keywords:
+            a = v.args[0]
+            k = val = None
+            if isinstance(a, ast.DictComp) and len(a.generators) == 1:
+                k, val, g = a.key, a.value, a.generators[0]
+            elif isinstance(a, (ast.GeneratorExp, ast.ListComp)) and len(a.generators) == 1 and isinstance(a.elt, ast.Tuple) and len(a.elt.elts) == 2:
+                k, val, g = a.elt.elts[0], a.elt.elts[1], a.generators[0]
+            if k is not None:
+                st_ = ast.Assign(targets=[ast.Subscript(value=copy.deepcopy(v.func.value), slice=k, ctx=ast.Store())], value=val)
+                inner = [st_]
+                for c in reversed(g.ifs):
+                    inner = [ast.If(test=c, body=inner, orelse=[])]
+                out.append(loc(ast.For(target=g.target, iter=g.iter, body=inner, orelse=[]), s_))
+                continue
+        out.append(s_)
+    body = out
+
+    def consumers(L, stmts):
+        """(loops over L, comprehensions over L) in stmts"""
+        loops = [x for x in stmts if isinstance(x, ast.For) and isinstance(x.iter, ast.Name) and x.iter.id == L]
+        comps = [c for x in stmts for c in ast.walk(x) if isinstance(c, (ast.ListComp, ast.GeneratorExp, ast.DictComp)) and len(c.generators) == 1
+                 and isinstance(c.generators[0].iter, ast.Name) and c.generators[0].iter.id == L]
+        return loops, comps
+
+    # 2. a list built by a comprehension and consumed element-wise later becomes an explicit producing loop
+    out = []
+    for i, s_ in enumerate(body):
+        if isinstance(s_, ast.Assign) and len(s_.targets) == 1 and isinstance(s_.targets[0], ast.Name) and isinstance(s_.value, ast.ListComp) \
+                and len(s_.value.generators) == 1 and not s_.value.generators[0].ifs:
+            L = s_.targets[0].id
+            loops, comps = consumers(L, body[i + 1:])
+            if loops or comps:
+                g = s_.value.generators[0]
+                out.append(loc(ast.Assign(targets=[ast.Name(id=L, ctx=ast.Store())], value=ast.List(elts=[], ctx=ast.Load())), s_))
+                app = ast.Expr(value=ast.Call(func=ast.Attribute(value=ast.Name(id=L, ctx=ast.Load()), attr="append", ctx=ast.Load()),
+                                              args=[s_.value.elt], keywords=[]))
+                out.append(loc(ast.For(target=g.target, iter=g.iter, body=[app], orelse=[]), s_))
+                continue
+        out.append(s_)
+    body = out
+
+    def append_sites(A, L):
+        """[(statement list, index)] of every `L.append(E)` statement inside loop A (nested in ifs, not in inner loops)"""
+        sites = []
+
+        def walk(stmts):
+            for j, x in enumerate(stmts):
+                if isinstance(x, ast.Expr) and isinstance(x.value, ast.Call) and isinstance(x.value.func, ast.Attribute) and x.value.func.attr == "append" \
+                        and isinstance(x.value.func.value, ast.Name) and x.value.func.value.id == L and len(x.value.args) == 1:
+                    sites.append((stmts, j))
+                elif isinstance(x, ast.If):
+                    walk(x.body)
+                    walk(x.orelse)
+        walk(A.body)
+        return sites
+
+    def insert_after_sites(A, L, make):
+        """put make(E) right behind every append site (processed back to front so that indices stay valid)"""
+        for stmts, j in sorted(append_sites(A, L), key=lambda t: -t[1]):
+            E = stmts[j].value.args[0]
+            stmts[j + 1:j + 1] = make(E)
+
+    # 3./4. fuse consumers into the producing loop
+    changed = True
+    counter = 0
+    while changed:
+        changed = False
+        for ia, A in enumerate(body):
+            if not isinstance(A, ast.For) or A.orelse or any(isinstance(n, (ast.Break, ast.Return)) for n in ast.walk(A)):
+                continue
+            lists = []
+            for n in ast.walk(A):
+                if isinstance(n, ast.Call) and isinstance(n.func, ast.Attribute) and n.func.attr == "append" and isinstance(n.func.value, ast.Name) \
+                        and n.func.value.id not in lists:
+                    lists.append(n.func.value.id)
+            for L in lists:
+                sites = append_sites(A, L)
+                all_apps = [n for x in body for n in ast.walk(x) if isinstance(n, ast.Call) and isinstance(n.func, ast.Attribute)
+                            and n.func.attr in ("append", "extend", "insert") and isinstance(n.func.value, ast.Name) and n.func.value.id == L]
+                inits = [x for x in body[:ia] if isinstance(x, ast.Assign) and len(x.targets) == 1 and isinstance(x.targets[0], ast.Name)
+                         and x.targets[0].id == L]
+                if not sites or len(all_apps) != len(sites) or len(inits) != 1 or not (isinstance(inits[0].value, ast.List) and not inits[0].value.elts):
+                    continue
+                loops, comps = consumers(L, body[ia + 1:])
+                if loops:
+                    B = loops[0]
+                    ib = body.index(B)
+                    between = body[ia + 1:ib]
+                    if B.orelse or any(isinstance(n, (ast.Break, ast.Return, ast.Continue)) for n in ast.walk(B)) or L in names_loaded(B.body):
+                        continue
+                    # statements between the two loops: what the consumer needs (initialisations) is hoisted before loop A if it
+                    # does not depend on A; everything else stays behind the fused loop if it does not depend on the consumer
+                    mutated_in_A = names_stored([A]) | {n.func.value.id for n in ast.walk(A) if isinstance(n, ast.Call) and isinstance(n.func, ast.Attribute)
+                                                        and isinstance(n.func.value, ast.Name) and n.func.attr in ("append", "extend", "insert", "update", "add")}
+                    b_loads, b_stores = names_loaded(B.body), names_stored(B.body) | names_stored([B.target])
+                    hoist, stay, ok = [], [], True
+                    for x in between:
+                        if not isinstance(x, (ast.Assign, ast.Expr)):
+                            ok = False
+                            break
+                        xs, xl = names_stored([x]), names_loaded([x])
+                        if xs & (b_loads | b_stores):
+                            if isinstance(x, ast.Assign) and not (xl & mutated_in_A) and not (xs & (names_loaded([A]) | mutated_in_A)):
+                                hoist.append(x)
+                            else:
+                                ok = False
+                                break
+                        elif xl & b_stores:
+                            ok = False
+                            break
+                        else:
+                            stay.append(x)
+                    if not ok:
+                        continue
+                    insert_after_sites(A, L, lambda E: [loc(ast.Assign(targets=[store_ctx(B.target)], value=copy.deepcopy(E)), B)] + copy.deepcopy(B.body))
+                    body = body[:ia] + hoist + [A] + stay + body[ib + 1:]
+                    changed = True
+                    break
+                if comps:
+                    c = comps[0]
+                    counter += 1
+                    newL = f"{L}__{counter}"
+                    g = c.generators[0]
+                    is_dict = isinstance(c, ast.DictComp)
+
+                    def make(E, c=c, g=g, newL=newL, is_dict=is_dict):
+                        bind = loc(ast.Assign(targets=[store_ctx(g.target)], value=copy.deepcopy(E)), A)
+                        if is_dict:
+                            put = ast.Assign(targets=[ast.Subscript(value=ast.Name(id=newL, ctx=ast.Load()), slice=copy.deepcopy(c.key), ctx=ast.Store())],
+                                             value=copy.deepcopy(c.value))
+                        else:
+                            put = ast.Expr(value=ast.Call(func=ast.Attribute(value=ast.Name(id=newL, ctx=ast.Load()), attr="append", ctx=ast.Load()),
+                                                          args=[copy.deepcopy(c.elt)], keywords=[]))
+                        inner = [loc(put, A)]
+                        for cnd in reversed(g.ifs):
+                            inner = [loc(ast.If(test=copy.deepcopy(cnd), body=inner, orelse=[]), A)]
+                        return [bind] + inner
+
+                    insert_after_sites(A, L, make)
+                    init = loc(ast.Assign(targets=[ast.Name(id=newL, ctx=ast.Store())],
+                                          value=ast.Dict(keys=[], values=[]) if is_dict else ast.List(elts=[], ctx=ast.Load())), A)
+                    repl = ast.Name(id=newL, ctx=ast.Load())
+
+                    class R(ast.NodeTransformer):
+                        def generic_visit(self, node):
+                            for fld, old in ast.iter_fields(node):
+                                if old is c:
+                                    setattr(node, fld, loc(repl, c))
+                                elif isinstance(old, list):
+                                    for j, o in enumerate(old):
+                                        if o is c:
+                                            old[j] = loc(repl, c)
+                                        elif isinstance(o, ast.AST):
+                                            self.visit(o)
+                                elif isinstance(old, ast.AST):
+                                    self.visit(old)
+                            return node
+
+                    for x in body[ia + 1:]:
+                        R().visit(x)
+                    body = body[:ia] + [init] + body[ia:]
+                    changed = True
+                    break
+            if changed:
+                break
+    return body
+
+
 def loop_model(prog, q, container):
     """abstract evaluation of the slice-building loop of function q: dict(f, lp, tv, it, container, pre, ex, body)"""
     from .. import symexec as SX
@@ -71,7 +277,8 @@ def loop_model(prog, q, container):
         container, _ = _fresh_instance_var(f)
         if container is None:
             raise AnalysisError(f"{q}: no fresh instance of the matrix class is created")
-    body = strip_docstring(f.node.body)
+    body = single_pass_view(strip_docstring(f.node.body))
+    view = ast.Module(body=body, type_ignores=[])
     loops = [n for n in body if isinstance(n, ast.For)]
     loops = [lp for lp in loops if any(isinstance(st, ast.Assign) and isinstance(st.targets[0], ast.Subscript)
                                        and unparse(st.targets[0].value) == f"{container}.slices" for st in ast.walk(lp))]
@@ -129,7 +336,7 @@ def loop_model(prog, q, container):
         ex = SX.SymExec(env_in).run(lbody)
     except AnalysisError as e:
         raise AnalysisError(f"{q}: {e}")
-    return dict(f=f, lp=lp, tv=tv, it=it, container=container, pre=pre, ex=ex, body=body, coll=coll)
+    return dict(f=f, lp=lp, tv=tv, it=it, container=container, pre=pre, ex=ex, body=body, coll=coll, view=view)
 
 
 def _site(prog, rep, q, container, stacked_kind):
@@ -140,6 +347,7 @@ def _site(prog, rep, q, container, stacked_kind):
 
     M = loop_model(prog, q, container)
     f, lp, tv, it, container, pre, ex, body, coll = (M[k] for k in ("f", "lp", "tv", "it", "container", "pre", "ex", "body", "coll"))
+    view = M["view"]
     stores = [e for e in ex.effects if e[0] == "store" and e[1][0] == f"{container}.slices"]
     ok = len(stores) == 1 and stores[0][2] == () and stores[0][1][1] == f"{tv}.name"
     obl(rep, f, stores[0][1][3] if stores else lp, "R17.1", ok,
@@ -162,7 +370,7 @@ def _site(prog, rep, q, container, stacked_kind):
     obl(rep, f, lp, "R17.1", init == SX.Lin(0), "offset starts at 0 before the loop", f"`{S}` = {SX.render(init) if init is not None else '?'}",
         f"the offset `{S}` is `{SX.render(init) if init is not None else 'undefined'}` when the loop starts: slices do not start at column 0")
     # (b) stacking uses the same collection in the same order
-    stacks = [x for x in calls_in(f.node) if dotted(x.func) == "np.column_stack"]
+    stacks = [x for x in calls_in(view) if dotted(x.func) == "np.column_stack"]
     if len(stacks) != 1:
         raise AnalysisError(f"{q}: expected exactly one np.column_stack call")
     arg = stacks[0].args[0]
@@ -191,7 +399,7 @@ def _site(prog, rep, q, container, stacked_kind):
         arr = SX.render(apps[0][1][1][0]) if apps and apps[0][1][1] else None
         why = f"{arg.id} is filled once per iteration of the loop over {it}"
         # all growth of the list happens in this loop only
-        grow = [x for x in calls_in(f.node, local=False) if unparse(x.func) in (f"{arg.id}.append", f"{arg.id}.insert", f"{arg.id}.extend")]
+        grow = [x for x in calls_in(view, local=False) if unparse(x.func) in (f"{arg.id}.append", f"{arg.id}.insert", f"{arg.id}.extend")]
         ok = ok and len(grow) == 1
     obl(rep, f, stacks[0], "R17.1", ok, "the stacked blocks are produced by the same iteration, in the same order, as the slices",
         why, f"stacking order and slice order can differ: {why}")
